@@ -338,3 +338,132 @@ Definition must_succeed (tk : tkind) (udp : bool) (pool dialf : list sfault) : b
                            | _ => detectable f
                            end
                     end) pool.
+
+(* ================================================================================================================
+   The idle read deadline of a pipelined connection (pipeline_conn.go readLoop / write).
+
+     readLoop:  for { c.c.SetReadDeadline(time.Now().Add(idleTimeout)); r, err := read(); if err != nil {
+                       closeWithErr(ErrIdleTimeOut / err); return }; deliver r }
+     write:     c.c.Write(b)                       -- touches NO deadline
+
+   The read deadline is re-armed only after a message has been READ.  It is the only thing that detects a connection
+   that went silent without FIN/RST, so it must fire one idle time-out after the last read WHATEVER the exchanges
+   write meanwhile.  One pooled connection shared by any number of exchange goroutines (each an instance of the LTS
+   above on TPipe), with an abstract clock: [ix_since] = time units since the read loop last armed its deadline.
+
+   [wr] = "a write re-arms the read deadline".  The code is [wr = false]; [wr = true] is what a SetDeadline (instead
+   of SetWriteDeadline) in write would do, and is here only to show that the theorems are sensitive to it. *)
+
+Record ixconn := mkIxC { ix_dead : bool; ix_since : nat }.
+Record ixsys := mkIxS { ix_conn : ixconn; ix_ws : list state }.
+
+Inductive ixlabel :=
+| IxTick                       (* one unit of time passes *)
+| IxRead                       (* the read loop reads a message (solicited or not): the deadline is re-armed *)
+| IxIdleFire                   (* the read deadline fires: closeWithErr(ErrIdleTimeOut) *)
+| IxKill                       (* any other death of the connection: read error, FIN, RST *)
+| IxJoin                       (* a new ExchangeContext call starts *)
+| IxW (i : nat) (l : label).   (* exchange i makes step l of the exchange LTS *)
+
+(* exchange w currently uses the shared pooled connection (newConn = false) *)
+Definition ix_on_conn (w : state) : bool :=
+  match pcv w with PWrite false | PWait false _ => true | _ => false end.
+
+(* context cancellation is a broadcast: every exchange on the connection sees it *)
+Definition ix_kill_w (w : state) : state :=
+  if ix_on_conn w
+  then mkSt (retry w) (ctxd w) true (pcv w) (dials w) (attempts w) (fails w) (g_fresh_fail w) (g_dial_fail w) (g_get_err w)
+  else w.
+
+Fixpoint ix_set_nth (i : nat) (w : state) (l : list state) : list state :=
+  match l, i with
+  | [], _ => []
+  | _ :: r, 0 => w :: r
+  | x :: r, S j => x :: ix_set_nth j w r
+  end.
+
+Definition ix_fire_enabled (idle : nat) (s : ixsys) : bool :=
+  negb (ix_dead (ix_conn s)) && (idle <=? ix_since (ix_conn s)).
+
+Definition ix_step (wr : bool) (idle : nat) (s : ixsys) (l : ixlabel) : option ixsys :=
+  let c := ix_conn s in
+  match l with
+  | IxTick => Some (mkIxS (mkIxC (ix_dead c) (S (ix_since c))) (ix_ws s))
+  | IxRead => if ix_dead c then None else Some (mkIxS (mkIxC false 0) (ix_ws s))
+  | IxIdleFire =>
+      if ix_fire_enabled idle s then Some (mkIxS (mkIxC true (ix_since c)) (map ix_kill_w (ix_ws s))) else None
+  | IxKill =>
+      if ix_dead c then None else Some (mkIxS (mkIxC true (ix_since c)) (map ix_kill_w (ix_ws s)))
+  | IxJoin => Some (mkIxS c (ix_ws s ++ [init]))
+  | IxW i l =>
+      match nth_error (ix_ws s) i with
+      | None => None
+      | Some w =>
+        let on := ix_on_conn w in
+        let allowed :=
+          match l with
+          | EKill => negb on                          (* the shared connection dies only through IxIdleFire / IxKill *)
+          | AGet true => negb (ix_dead c)             (* the pool never hands out a connection it knows to be closed *)
+          | EDeliver _ => negb (on && ix_dead c)      (* nothing is read from a closed connection *)
+          | _ => true
+          end in
+        if allowed then
+          match step TPipe w l with
+          | None => None
+          | Some w' =>
+            let c' :=
+              match l with
+              | EDeliver _ => if on then mkIxC (ix_dead c) 0 else c       (* a reply was read: re-armed *)
+              | AWrite _ => if wr && on then mkIxC (ix_dead c) 0 else c   (* the code: a write re-arms nothing *)
+              | _ => c
+              end in
+            Some (mkIxS c' (ix_set_nth i w' (ix_ws s)))
+          end
+        else None
+      end
+  end.
+
+Fixpoint ix_exec (wr : bool) (idle : nat) (ls : list ixlabel) (s : ixsys) : option ixsys :=
+  match ls with
+  | [] => Some s
+  | l :: r => match ix_step wr idle s l with Some s' => ix_exec wr idle r s' | None => None end
+  end.
+
+(* a label that reads from the shared connection *)
+Definition ix_is_read (s : ixsys) (l : ixlabel) : bool :=
+  match l with
+  | IxRead => true
+  | IxW i (EDeliver _) => match nth_error (ix_ws s) i with Some w => ix_on_conn w | None => false end
+  | _ => false
+  end.
+
+(* "the connection stays silent along ls": no step of the execution reads from it *)
+Fixpoint ix_silent (wr : bool) (idle : nat) (ls : list ixlabel) (s : ixsys) : bool :=
+  match ls with
+  | [] => true
+  | l :: r => negb (ix_is_read s l) &&
+              match ix_step wr idle s l with Some s' => ix_silent wr idle r s' | None => true end
+  end.
+
+Fixpoint ix_ticks (ls : list ixlabel) : nat :=
+  match ls with [] => 0 | IxTick :: r => S (ix_ticks r) | _ :: r => ix_ticks r end.
+
+Definition ix_init : ixsys := mkIxS (mkIxC false 0) [].
+
+(* what a waiter of the dead pooled connection does next when the server is healthy for new connections:
+   connection arm, retry, dial, write, reply *)
+Definition ix_recovery : list label :=
+  [AArmConn; ACheck; AGet false; EDial true; AArmDial; AWrite true; EDeliver true; AArmRes].
+
+(* ---- the harness scenario with a known idle time-out: a silent pipelined connection is killed by the idle read
+   deadline before an exchange deadline that lies beyond it ---- *)
+Definition abs_idle (tk : tkind) (idle_before_deadline : bool) (f : fault) : fault :=
+  match tk, f with
+  | TPipe, FSilent => if idle_before_deadline then FDie else FSilent
+  | _, _ => f
+  end.
+
+Definition run_case_idle (tk : tkind) (udp : bool) (idle_before_deadline : bool) (pool dialf : list sfault)
+  : option outcome :=
+  run_script tk (map (abs_idle tk idle_before_deadline) (abs_pool tk udp pool))
+                (map (fun f => abs_idle tk idle_before_deadline (abs_dial tk udp f)) dialf).
